@@ -3,19 +3,19 @@
 # Confirms a sub-agent's change in its scratch worktree (demo passes on HEAD, fails with the patch, repo tests pass),
 # stores it as /verif/seeded/<name>/ and runs the listed checks against /repo with the patch applied (undone afterwards).
 P=$1; I=$2; NAME=$3; shift 3
-W=/tmp/seed/$P; O=/tmp/seed/$P-out; D=/verif/seeded/$NAME
+B=${SEEDBASE:-/tmp/seed}; W=$B/$P; O=$B/$P-out; D=/verif/seeded/$NAME
 cd /verif || exit 2
 git -C $W checkout -q -- . ; rm -rf $W/_b
-sh $O/run_demo$I.sh >/tmp/seed/$NAME.demo_clean.log 2>&1; r_clean=$?
+sh $O/run_demo$I.sh >$B/$NAME.demo_clean.log 2>&1; r_clean=$?
 git -C $W apply $O/patch$I.diff || { echo "$NAME: patch does not apply"; exit 2; }
-( cmake -G Ninja -S $W -B $W/_b -DCMAKE_BUILD_TYPE=RelWithDebInfo >/dev/null 2>&1 && cmake --build $W/_b >/dev/null 2>&1 && $W/_b/polyseed-tests | tail -1 ) > /tmp/seed/$NAME.tests.log 2>&1
-tests_ok=$(grep -c "All tests were successful" /tmp/seed/$NAME.tests.log)
-sh $O/run_demo$I.sh >/tmp/seed/$NAME.demo_patched.log 2>&1; r_patch=$?
+( cmake -G Ninja -S $W -B $W/_b -DCMAKE_BUILD_TYPE=RelWithDebInfo >/dev/null 2>&1 && cmake --build $W/_b >/dev/null 2>&1 && $W/_b/polyseed-tests | tail -1 ) > $B/$NAME.tests.log 2>&1
+tests_ok=$(grep -c "All tests were successful" $B/$NAME.tests.log)
+sh $O/run_demo$I.sh >$B/$NAME.demo_patched.log 2>&1; r_patch=$?
 git -C $W checkout -q -- . ; rm -rf $W/_b
 echo "$NAME: demo on HEAD exit=$r_clean, repo tests with patch pass=$tests_ok, demo with patch exit=$r_patch"
 if [ $r_clean -ne 0 ] || [ $tests_ok -ne 1 ] || [ $r_patch -eq 0 ]; then echo "$NAME: NOT CONFIRMED"; exit 3; fi
 mkdir -p $D; cp $O/patch$I.diff $D/patch.diff; cp $O/note$I.txt $D/note.txt; cp $O/run_demo$I.sh $D/run_demo.sh; for f in $O/demo$I.c $O/demo$I.cpp; do [ -f $f ] && cp $f $D/; done
-tail -5 /tmp/seed/$NAME.demo_patched.log > $D/demo_output_with_patch.txt
+tail -5 $B/$NAME.demo_patched.log > $D/demo_output_with_patch.txt
 git -C /repo diff --quiet || { echo "/repo dirty"; exit 2; }
 git -C /repo apply $D/patch.diff || { echo "$NAME: patch does not apply to /repo"; exit 2; }
 trap 'git -C /repo checkout -- .' EXIT
